@@ -172,6 +172,12 @@ func (c *ScalarCase) leadFields() []desc.F {
 	if c.Lead == "plain" || c.Lead == "all" {
 		fs = append(fs, desc.F{Name: "Z0", T: desc.Scalar("string")})
 	}
+	if c.Lead == "wide" {
+		// our field is the 261st of its struct (whatever indexes fields in a byte wraps around)
+		for i := 0; i < 260; i++ {
+			fs = append(fs, desc.F{Name: fmt.Sprintf("W%03d", i), T: desc.Scalar("string")})
+		}
+	}
 	return fs
 }
 
@@ -182,6 +188,11 @@ func (c *ScalarCase) fillLead(st reflect.Value) {
 	}
 	if f := st.FieldByName("Z0"); f.IsValid() {
 		f.SetString("lead value 测试")
+	}
+	if f := st.FieldByName("W004"); f.IsValid() {
+		for i := 0; i < 260; i++ {
+			st.Field(i).SetString("w")
+		}
 	}
 	if f := st.FieldByName("u0"); f.IsValid() {
 		reflect.NewAt(f.Type(), unsafe.Pointer(f.UnsafeAddr())).Elem().SetInt(77)
